@@ -65,9 +65,33 @@ def job_fn(job):
         from qrcode.image.pure import PyPNGImage
         res = []
         for (kind, v, mask, data) in job:
+            kind, _, opt = kind.partition("@")
             q = qrcode.QRCode(version=v, mask_pattern=mask)
-            q.add_data(data, optimize=0)
-            if kind == "compile":
+            q.add_data(data, optimize=int(opt or 0))
+            if kind.startswith("text"):
+                class _Out(io.StringIO):
+                    n = 0
+
+                    def isatty(self):
+                        return True
+
+                    def write(self, s):
+                        _Out.n += 1
+                        if sched.SchedDict.ctl is not None and _Out.n % 7 == 1:
+                            sched.SchedDict.ctl.yield_point("call:stream.write")
+                        return super().write(s)
+                out = _Out()
+                if kind == "text-tty":
+                    q.print_tty(out=out)
+                else:
+                    q.print_ascii(out=out, invert=kind == "text-invert", tty=kind == "text-ascii-tty")
+                res.append((kind, fmt_mat(q.modules), out.getvalue()))
+            elif kind == "pil":
+                from qrcode.image.pil import PilImage
+                im = q.make_image(image_factory=PilImage, fill_color=("black", "red", (0, 0, 90))[v % 3], back_color=("white", "yellow", (250, 250, 250))[mask % 3 if mask else 0])
+                buf = io.BytesIO(); im.save(buf)
+                res.append((kind, fmt_mat(q.modules), buf.getvalue()))
+            elif kind == "compile":
                 q.make(fit=False); res.append(("m", fmt_mat(q.modules)))
             elif kind == "matrix":
                 res.append(("g", fmt_mat(q.get_matrix())))
@@ -88,10 +112,16 @@ def job_fn(job):
 def gen_job(rnd, nsteps):
     job = []
     for _ in range(nsteps):
-        kind = rnd.choice(["compile", "compile", "matrix", "svg-fragment", "svg", "svg-path", "png", "svg:circle", "svg-path:gapped-square", "svg:gapped-circle"])
+        kind = rnd.choice(["compile", "compile", "matrix", "svg-fragment", "svg", "svg-path", "png", "svg:circle", "svg-path:gapped-square", "svg:gapped-circle",
+                           "text", "text-invert", "text-ascii-tty", "text-tty", "pil", "compile", "matrix"])
         v = rnd.choice([1, 1, 2, 3, 7])
         mask = rnd.choice([None, 0, 3, 5]) if v <= 3 else rnd.choice([1, 6])
-        job.append((kind, v, mask, gens.payload(rnd, rnd.choice(["lower", "digits"]), rnd.randrange(1, 9))))
+        data = gens.payload(rnd, rnd.choice(["lower", "digits"]), rnd.randrange(1, 9))
+        if ":" not in kind and rnd.random() < 0.5:
+            # the segmentation depends on the threshold: letters + a digit run + letters, thresholds 0 / 4 / 20
+            data = gens.payload(rnd, "lower", rnd.randrange(1, 3)) + gens.payload(rnd, "digits", rnd.choice([4, 5, 6])) + gens.payload(rnd, "lower", rnd.randrange(0, 2))
+            kind += "@" + str(rnd.choice([0, 4, 4, 20]))
+        job.append((kind, v, mask, data))
     return job
 
 
@@ -116,33 +146,65 @@ def run(ctx):
         new = [x for x in inv if x not in base]
         R.corr("shared-state-inventory", "inventory", "ok" if not new else "new process-wide state: " + "; ".join(new), "ok", tag="P2:inventory",
                sample=dict(inventory=inv))
+    # ---- directed search: process-wide state the baseline inventory does not know -> every line of every function that mentions it
+    # becomes a yield point, and pairs of jobs with different parameters are run under "A pauses at each point while B runs completely"
+    dense = set()
+    for item in (new if base is not None else []):
+        rel, _, what = item.partition(":")
+        names = set(what.replace("global ", "").split(",")) if what.startswith("global ") else {what.split(".")[-1]}
+        names = {n.strip() for n in names if n.strip()}
+        for dp, dn, fn in os.walk(os.path.join(REPO, "qrcode")):
+            if "tests" in dp or "__pycache__" in dp:
+                continue
+            for f in fn:
+                if f.endswith(".py"):
+                    p = os.path.join(dp, f)
+                    try:
+                        tree = ast.parse(open(p).read())
+                    except SyntaxError:
+                        continue
+                    for fd in [n for n in ast.walk(tree) if isinstance(n, (ast.FunctionDef, ast.AsyncFunctionDef))]:
+                        if any((isinstance(x, ast.Name) and x.id in names) or (isinstance(x, ast.Attribute) and x.attr in names) for x in ast.walk(fd)):
+                            dense.add((os.path.realpath(p), fd.name)); dense.add((p, fd.name))
     # ---- scheduled runs
     cases = []
+    if dense:
+        log(f"new process-wide state: line-level yield points in {sorted({d[1] for d in dense})}")
+        digits = lambda k: b"ab" + b"1234567"[:k] + b"c"
+        for ka, kb in [("compile@4", "compile@2"), ("compile@6", "compile@4"), ("compile@0", "compile@4"), ("compile@4", "compile@4"), ("compile@2", "compile@2"), ("text-invert", "text"), ("text", "text-invert"),
+                       ("text-ascii-tty", "text"), ("text-tty", "text-tty"), ("pil", "pil"), ("svg-path", "svg-path"), ("svg:circle", "svg:gapped-circle"), ("svg", "svg-fragment"),
+                       ("png", "png"), ("matrix", "matrix"), ("compile", "svg-path"), ("text-invert", "text-invert")]:
+            # "earlier in this process": the same operations with OTHER parameters (displaces one-entry memos, warms caches for other keys)
+            for vs, warmjob in (((1, 1), [("compile@6", 2, 5, digits(7)), ("text", 2, 1, b"w")]), ((1, 2), [("compile@2", 1, 0, digits(5)), ("text-invert", 1, 0, b"w")])):
+                cases.append(("dir", [[(ka, vs[0], 0, digits(5))], [(kb, vs[1], 3, digits(6))]], None, (), warmjob))
     # exhaustive interleavings of two one-step jobs (the yield-point count is small)
     for kinds in [("compile", "compile"), ("compile", "svg-fragment"), ("svg-fragment", "svg"), ("svg", "svg-path"), ("matrix", "compile"), ("svg:circle", "svg:circle")]:
         for vs in [(1, 1), (1, 2), (7, 7)]:
             ja = [(kinds[0], vs[0], 0, b"thread-A")]; jb = [(kinds[1], vs[1], 3, b"thread-B")]
-            cases.append(("exh", [ja, jb], None, ()))
+            cases.append(("exh", [ja, jb], None, (), None))
     nrand = 400 if tier == "thorough" else 50
     for _ in range(nrand):
         k = rnd.choice([2, 2, 2, 3, 4])
         jobs = [gen_job(rnd, rnd.choice([1, 2, 2, 3])) for _ in range(k)]
-        cases.append(("rand", jobs, [rnd.randrange(k) for _ in range(rnd.randrange(20, 400))], tuple(rnd.sample([1, 2, 3, 7], rnd.randrange(0, 3)))))
+        cases.append(("rand", jobs, [rnd.randrange(k) for _ in range(rnd.randrange(20, 400))], tuple(rnd.sample([1, 2, 3, 7], rnd.randrange(0, 3))), None))
     nsched = 0
     accesses_seen = set()
     with sched.Installed():
-        for mode, jobs, schedule, warm in cases:
+        for mode, jobs, schedule, warm, warmjob in cases:
+            sched.Controller.tracer = sched.DenseTrace(dense) if (dense and mode == "dir") else None
             fns = [job_fn(j) for j in jobs]
             def prep():
                 M.precomputed_qr_blanks.clear()
                 sched.SchedDict.ctl = None
                 for v in warm:
                     w = qrcode.QRCode(version=v); w.makeImpl(False, 0)
+                if warmjob:
+                    job_fn(warmjob)()       # the process did something else before (memo / cache entries for other parameters)
             # reference: each job alone (fresh cache state each)
             ref = []
             for f in fns:
                 prep(); ref.append(("ok", f()))
-            if mode == "exh":
+            if mode in ("exh", "dir"):
                 # count yield points of each thread when run alone
                 counts = []
                 for t, f in enumerate(fns):
@@ -153,7 +215,17 @@ def run(ctx):
                 base_sched = [0] * (counts[0] + 1) + [1] * (counts[1] + 1)
                 perms = set()
                 allp = list(set(itertools.permutations(base_sched))) if len(base_sched) <= 10 else None
-                if allp is None:
+                if mode == "dir":
+                    # directed: "A runs `cut` steps, B runs completely, A finishes" (and the mirror image) for at most 24 cut points each
+                    perms = set()
+                    for a, b in ((0, 1), (1, 0)):
+                        pts = list(range(0, counts[a] + 1))
+                        if len(pts) > 24:
+                            pts = sorted(set(rnd.sample(pts, 20) + pts[:4]))
+                        for cut in pts:
+                            perms.add(tuple([a] * cut + [b] * (counts[b] + 1) + [a] * (counts[a] + 1 - cut)))
+                    schedules = list(perms)
+                elif allp is None:
                     for _ in range(300 if tier == "thorough" else 8):
                         s = base_sched[:]; rnd.shuffle(s); perms.add(tuple(s))
                     # plus the "A pauses at every point while B runs completely" schedules (the classic window finder)
@@ -175,12 +247,14 @@ def run(ctx):
                 nsched += 1
                 for _, w in c.trace:
                     accesses_seen.add(w)
-                key = f"{mode} jobs={[[(k, v, m, d.decode()) for k, v, m, d in j] for j in jobs]} warm={warm} schedule={list(s)[:60]}"
+                key = f"{mode} jobs={[[(k, v, m, d.decode()) for k, v, m, d in j] for j in jobs]} warm={warm} schedule={list(s)[:60]}" + \
+                    (f" earlier-in-process={[(k, v, m, d.decode()) for k, v, m, d in warmjob]}" if warmjob else "") + (f" line-level yields in {sorted({d[1] for d in dense})}" if dense else "")
                 bad = [t for t in range(len(fns)) if results[t] != ref[t]]
                 R.oracle(key, not bad, dict(input=key[:600], jobs=[[(k, v, m, d.decode()) for k, v, m, d in j] for j in jobs], warm=list(warm), schedule=list(s),
                                             expected="every thread obtains what it obtains when run alone",
                                             observed="; ".join(f"thread {t}: " + (results[t][1] if results[t][0] == "exc" else "results differ from the sequential run") for t in bad)[:400]),
                          tag="P3:" + mode + str(len(fns)), sample=dict(threads=len(fns), steps=steps) if nsched % 50 == 1 else None)
+    sched.Controller.tracer = None
     log(f"{nsched} scheduled runs")
     # the model's alphabet of shared accesses
     allowed = {"blanks:contains", "blanks:get", "blanks:set", "ns:get", "ns:contains"}
